@@ -297,3 +297,115 @@ Definition labs_ols_s2 (rss_ : Qc) (n p : Z) : Qc := Qcdiv rss_ (qofZ (n - p)).
 Definition labs_kalman_s2 (rss_ : Qc) (n p : Z) : Qc := Qcdiv rss_ (qofZ n).
 Definition labs_kalman_s2_cor (rss_ : Qc) (n p : Z) : Qc :=
   Qcmult (Qcdiv (qofZ n) (qofZ (n - p))) (labs_kalman_s2 rss_ n p).
+
+(* ------------------------------------------------------------------ fff_glm_kalman.c : standard Kalman filter (OLS)
+   fff_glm_KF_new / _reset (lines 15-77):  b = 0, Vb = INIT_VAR * I, ssd = 0, t = 0
+   fff_glm_KF_iterate (lines 80-104), one row (x, y):
+       t++;  Ey = x.b;  Cby = Vb x (dsymv);  Vy = x.Cby + 1;  invVy = 1/Vy;  ino = y - Ey
+       b   += invVy*ino * Cby                      (daxpy)
+       Vb  += -invVy * Cby Cby'                    (dger)
+       ssd += ino^2 * invVy;   s2 = ssd / t
+   fff_glm_KF_fit (lines 286-313): reset is the caller's business; iterate over the rows;
+       dof = n - p;  s2_cor = (n / dof) * s2
+   dsymv reads the upper triangle of Vb only; Vb stays symmetric (kf_sym in Proofs3), so the
+   model uses the full product.  A step whose Vy is zero yields None (the C would divide by 0;
+   kalman_never_divides shows it cannot happen over an ordered field). *)
+Section Kalman.
+  Variable R : Type.
+  Variables (r0 r1 : R) (radd rmul rsub rdiv : R -> R -> R) (ropp : R -> R).
+  Variable reqb : R -> R -> bool.
+  Variable rofZ : Z -> R.
+
+  Local Notation vec := (list R).
+  Local Notation mat := (list (list R)).
+
+  Record kf := { kb : vec; kVb : mat; kssd : R; kt : nat }.
+
+  Definition smat (p : nat) (v0 : R) : mat := map (vscale rmul v0) (mid r0 r1 p).
+  Definition kf_init (p : nat) (v0 : R) : kf :=
+    {| kb := vzero r0 p; kVb := smat p v0; kssd := r0; kt := 0 |}.
+
+  (* A += alpha x y' *)
+  Fixpoint dger (alpha : R) (x y : vec) (A : mat) : mat :=
+    match A, x with
+    | row :: A', xi :: x' => vadd radd row (vscale rmul (rmul alpha xi) y) :: dger alpha x' y A'
+    | _, _ => A
+    end.
+
+  Definition kf_step (st : kf) (xy : vec * R) : option kf :=
+    let x := fst xy in
+    let y := snd xy in
+    let Ey := dot r0 radd rmul x (kb st) in
+    let Cby := mv r0 radd rmul (kVb st) x in
+    let Vy := radd (dot r0 radd rmul x Cby) r1 in
+    if reqb Vy r0 then None else
+      let invVy := rdiv r1 Vy in
+      let ino := rsub y Ey in
+      Some {| kb := vadd radd (kb st) (vscale rmul (rmul invVy ino) Cby);
+              kVb := dger (ropp invVy) Cby Cby (kVb st);
+              kssd := radd (kssd st) (rmul (rmul ino ino) invVy);
+              kt := S (kt st) |}.
+
+  Fixpoint kf_fold (rows : list (vec * R)) (st : kf) : option kf :=
+    match rows with
+    | [] => Some st
+    | xy :: rest => match kf_step st xy with Some st' => kf_fold rest st' | None => None end
+    end.
+
+  Definition kf_fit (p : nat) (v0 : R) (X : mat) (y : vec) : option kf :=
+    kf_fold (combine X y) (kf_init p v0).
+  Definition kf_s2 (st : kf) : R := rdiv (kssd st) (rofZ (Z.of_nat (kt st))).
+  Definition kf_dof (n p : nat) : Z := (Z.of_nat n - Z.of_nat p)%Z.
+  Definition kf_s2_cor (n p : nat) (st : kf) : R :=
+    rmul (rdiv (rofZ (Z.of_nat n)) (rofZ (kf_dof n p))) (kf_s2 st).
+End Kalman.
+Arguments kb {R} k.
+Arguments kVb {R} k.
+Arguments kssd {R} k.
+Arguments kt {R} k.
+
+Definition q_kf_fit := kf_fit Qc q0 q1 Qcplus Qcmult Qcminus Qcdiv Qcopp Qc_eq_bool.
+Definition q_kf_s2 := kf_s2 Qc Qcdiv qofZ.
+Definition q_kf_s2_cor := kf_s2_cor Qc Qcmult Qcdiv qofZ.
+(* INIT_VAR = 1e7 *)
+Definition kf_init_var : Qc := qofZ 10000000.
+Definition kf_lambda : Qc := qfrac 1 10000000.
+
+(* final state of the C filter (b, ssd, t, s2, s2_cor as floats) against the model *)
+Definition kf_close (tol : Q) (n p : nat) (st : option (kf Qc)) (b : list Qc) (ssd s2 s2cor : Qc) (t : nat) : bool :=
+  match st with
+  | Some s => vclose tol (kb s) b && qclose tol (kssd s) ssd && Nat.eqb (kt s) t
+              && qclose tol (q_kf_s2 s) s2 && qclose tol (q_kf_s2_cor n p s) s2cor
+  | None => false
+  end.
+
+(* ------------------------------------------------------------------ contrasts (model.py Tcontrast)
+     normalized_cov_beta = np.dot(calc_beta, calc_beta.T)                 (regression.py:107)
+     effect = c . theta;  sd = sqrt(c cov c' * dispersion);  t = effect / sd
+   (pos_recipr's guard for sd <= 0 is not modelled: t is the plain quotient; sqrt is abstract) *)
+Section Contrast.
+  Variable R : Type.
+  Variables (r0 : R) (radd rmul rdiv : R -> R -> R) (rsqrt : R -> R).
+  Definition ncov_beta (p n : nat) (P : list (list R)) : list (list R) :=
+    mm r0 radd rmul p P (mtrans r0 n P).
+  Definition con_effect (c b : list R) : R := dot r0 radd rmul c b.
+  Definition con_quad (p n : nat) (P : list (list R)) (c : list R) : R :=
+    dot r0 radd rmul c (mv r0 radd rmul (ncov_beta p n P) c).
+  Definition con_t (eff quad disp : R) : R := rdiv eff (rsqrt (rmul quad disp)).
+End Contrast.
+
+(* a 1-D array as an (n,1) array *)
+Definition colmat {A} (v : list A) : list (list A) := map (fun a => [a]) v.
+
+(* the fit of one voxel y under label l, as ar_block_beta computes its column *)
+Definition ar_voxel_beta (R : Type) (r0 r1 : R) (radd rmul rsub rdiv : R -> R -> R)
+           (reqb : R -> R -> bool) (rofZ : Z -> R)
+           (p : nat) (steps : Z) (X : list (list R)) (l : Z) (y : list R) : list R :=
+  let rho := [label_val R r1 rmul rdiv rofZ steps l] in
+  let wy := col r0 0 (ar_whiten R rmul rsub rho (colmat y)) in
+  let bcol := match ref_col R r0 r1 radd rmul rsub rdiv reqb rofZ p
+                            (ar_design R r1 rmul rsub rdiv rofZ steps l X) wy with
+              | Some (b, _) => b
+              | None => []
+              end in
+  map (fun i => nth i bcol r0) (seq 0 p).
